@@ -353,6 +353,14 @@ TrashDrains ==    \* a trashed connection with only orphaned streams left does n
     \A c \in trash : ~closed[c] /\ Live(c) > 0
 CurNotTrashed == cur = 0 \/ cur \notin trash
 
+(* ACTION_CONSTRAINT for random simulation only (replay of sampled behaviours of the larger instances):  *)
+(* shutdown and socket errors come late, when a replacement is under way or most requests were issued,  *)
+(* so that sampled behaviours are not all cut short by an early shutdown.                               *)
+Sim_LateFaults ==
+    act'.name \in {"ShutdownMark", "ConnFails"} =>
+        \/ rep.ph # "none" \/ trash # {}
+        \/ Cardinality({r \in Reqs : st[r] # "new"}) >= Cardinality(Reqs) - 1
+
 (* vacuity witnesses: each must be violated (= reachable) *)
 Witness_Trashed == trash = {}
 Witness_TrashClosedByRespond == ~(act.name = "Respond" /\ ~shutdown /\ closed[act.c] /\ ~defunct[act.c])
